@@ -14,7 +14,7 @@ PROFILE = dict(
     backends=["slurm", "slurm", "sge", "lsf", "local"],
     sizes=[2, 3, 4, 5, 6, 8],
     protect=True, p_init_outputs=0.8, p_link_output=0.12,
-    weights=dict(faulted=0.2, clean=4, clean_io_fault=0.25, run=1, start=1, finish=1.5, set_file=1.5, delete_output=0.5, touch=0.5,
+    weights=dict(links=0.4, faulted=0.2, clean=4, clean_io_fault=0.25, run=1, start=1, finish=1.5, set_file=1.5, delete_output=0.5, touch=0.5,
                  toggle_hashing=0.3, advance=0.3),
     p_job_ok=0.8, p_hashing=0.5, p_huge=0.01,
 )
